@@ -53,6 +53,12 @@ def cases(shard):
         yield c
 
 
+def _tupled(t):
+    if isinstance(t, (list, tuple)):
+        return tuple(_tupled(x) for x in t)
+    return t
+
+
 def run_case(case, acc):
     rabin = bool(case['rabin'])
     sy = synth.Synth(case)
@@ -77,8 +83,14 @@ def run_case(case, acc):
            n=len(combos))
     if not realizable:
         return
-    if not case.get('deep'):
-        h = int(stable_hash(case)[:8], 16)
+    if case.get('init'):
+        # replay of one recorded construction
+        realizable = [tuple(case['init'])] if tuple(
+            _tupled(case['init'])) in [tuple(_tupled(list(r)))
+                                       for r in realizable] else realizable
+    elif not case.get('deep'):
+        h = int(stable_hash({k: v for k, v in case.items()
+                             if k != 'init'})[:8], 16)
         k = len(realizable)
         realizable = [realizable[h % k]]
     m0 = synth.memory_init(case, rabin)
